@@ -150,31 +150,21 @@ func ParseURI(raw string) (*URI, error) { //nolint:gocognit,cyclop
 	}
 
 	var rawPort string
-	if uri.Host, rawPort, err = net.SplitHostPort(rawParts.Opaque); err != nil { //nolint:nestif
+	if uri.Host, rawPort, err = net.SplitHostPort(rawParts.Opaque); err != nil {
 		var e *net.AddrError
-		if errors.As(err, &e) {
-			if e.Err == "missing port in address" {
-				nextRawURL := uri.Scheme.String() + ":" + rawParts.Opaque
-				switch {
-				case uri.Scheme == SchemeTypeSTUN || uri.Scheme == SchemeTypeTURN:
-					nextRawURL += ":3478"
-					if rawParts.RawQuery != "" {
-						nextRawURL += "?" + rawParts.RawQuery
-					}
-
-					return ParseURI(nextRawURL)
-				case uri.Scheme == SchemeTypeSTUNS || uri.Scheme == SchemeTypeTURNS:
-					nextRawURL += ":5349"
-					if rawParts.RawQuery != "" {
-						nextRawURL += "?" + rawParts.RawQuery
-					}
-
-					return ParseURI(nextRawURL)
-				}
-			}
+		if !errors.As(err, &e) || e.Err != "missing port in address" {
+			return nil, err
 		}
 
-		return nil, err
+		// No port given: append the scheme's default port and split once more.
+		// A second failure is final, so malformed input cannot make ParseURI loop.
+		defaultPort := "3478"
+		if uri.Scheme == SchemeTypeSTUNS || uri.Scheme == SchemeTypeTURNS {
+			defaultPort = "5349"
+		}
+		if uri.Host, rawPort, err = net.SplitHostPort(rawParts.Opaque + ":" + defaultPort); err != nil {
+			return nil, err
+		}
 	}
 
 	if uri.Host == "" {
